@@ -210,7 +210,15 @@ def make_analyzer(case, **extra):
 def ref_mismatches(res, case, bins=None):
     x1, x2 = channels(case)
     win, psll = ref_window(case)
-    return list(A.check_result_against_ref(res, x1, x2, int(case["opts"]["order"]), win, psll, case["fs"], bins=bins))
+    try:
+        return list(A.check_result_against_ref(res, x1, x2, int(case["opts"]["order"]), win, psll, case["fs"], bins=bins))
+    except Exception as ex:
+        # the reference is evaluated from the result's OWN f[j], L[j], D[j]: if that cannot even be done (a start list that does not fit its segment
+        # length, fields of different bins paired up) the per-bin fields are misaligned — a violation of the property, not an error of the check
+        nf = len(res.f)
+        j = next((i for i in range(nf) if len(res.D[i]) and int(max(res.D[i])) + int(res.L[i]) > len(x1)), nf - 1)
+        return [(j, "alignment", f"D[{j}] (max start {int(max(res.D[j])) if len(res.D[j]) else None}) with L[{j}]={int(res.L[j])} on a record of {len(x1)}",
+                 f"segments inside the record; reference evaluation raised {ex!r}"[:200], 0.0)]
 
 
 class _Lazy(dict):
